@@ -128,12 +128,17 @@ func runC17(c *vk.Ctx) {
 				}
 			}
 		}
-		for _, drv := range []string{"long", "mem", "fs", "resume"} {
+		for _, drv := range []string{"long", "mem", "fs", "resume", "resume-some"} {
 			mk := func() (c17driver, *app.Backend) {
-				if drv == "long" || drv == "resume" {
+				if drv == "long" || strings.HasPrefix(drv, "resume") {
 					d := app.NewLongLived(a, cfg)
 					d.FlushAfterError = true
 					d.Recreate = drv == "resume" // a new engine over the same state and cache objects for every request
+					if drv == "resume-some" {
+						// ... or after every second or third request (an engine that has served some requests is replaced)
+						k := 2 + i%2
+						d.RecreateWhen = func(n int) bool { return n%k == 0 }
+					}
 					return d, nil
 				}
 				b, _ := app.NewBackend(drv)
@@ -235,7 +240,7 @@ func runC17(c *vk.Ctx) {
 						}
 						if !bad && prev != nil {
 							// snapshots around the refused request
-							if drv == "long" || drv == "resume" {
+							if drv == "long" || strings.HasPrefix(drv, "resume") {
 								if !o.State.Equal(prev.State) || !o.Cache.Equal(prev.Cache) {
 									c.Violate("refused-input-mutates:"+cl+":"+drv+":"+whatDiffers(prev.State, o.State, prev.Cache, o.Cache), fmt.Sprintf("live session differs around refused input %s: before %+v after %+v", printable(rin), prev.State, o.State), key, cs)
 									bad = true
